@@ -133,3 +133,56 @@ func Str(raw json.RawMessage) string {
 	}
 	return s
 }
+
+// Block collects the events of one scenario so that scenarios can run in parallel and
+// still appear contiguously in the trace file.
+type Block struct {
+	t  *Trace
+	ev []Ev
+}
+
+func (t *Trace) Block() *Block { return &Block{t: t} }
+
+func (b *Block) Emit(name string, kv ...any) {
+	e := Ev{"ev": name}
+	for i := 0; i+1 < len(kv); i += 2 {
+		e[kv[i].(string)] = kv[i+1]
+	}
+	b.ev = append(b.ev, e)
+}
+
+func (b *Block) Flush() {
+	b.t.mu.Lock()
+	defer b.t.mu.Unlock()
+	for _, e := range b.ev {
+		b.t.seq++
+		e["seq"] = b.t.seq
+		j, err := json.Marshal(e)
+		if err != nil {
+			panic(err)
+		}
+		b.t.w.Write(j)
+		b.t.w.WriteByte('\n')
+	}
+	b.ev = nil
+}
+
+// Parallel runs fn(i) for i in [0,n) on `width` goroutines.
+func Parallel(n, width int, fn func(i int)) {
+	var wg sync.WaitGroup
+	ch := make(chan int)
+	for w := 0; w < width; w++ {
+		wg.Add(1)
+		go func() {
+			defer wg.Done()
+			for i := range ch {
+				fn(i)
+			}
+		}()
+	}
+	for i := 0; i < n; i++ {
+		ch <- i
+	}
+	close(ch)
+	wg.Wait()
+}
